@@ -90,6 +90,20 @@ func NoDropExits(p *core.Program, r *core.Report, rule string) {
 				r.Add(rule, c, p.Pos(at.Pos()), core.Excepted, why+" [today under: "+cond+"]")
 				return
 			}
+			// a skip under a condition under which the reference tree already skips in this function (there written as a
+			// guard around the work, or as a continue): the same elements are left out as before
+			if b, isBranch := at.(*ast.BranchStmt); isBranch && b.Tok == token.CONTINUE {
+				if sc := skipCondOf(info, fd.Decl.Body, b); sc != "" {
+					for _, owner := range SiteOwners(p, fd) {
+						for _, known := range p.RefSkips(owner) {
+							if known == sc {
+								r.OK(rule, fmt.Sprintf("%s: continue under the reviewed skip condition %s", fd.Key(), sc), p.Pos(at.Pos()), "the reference tree skips under the same condition in this function")
+								return
+							}
+						}
+					}
+				}
+			}
 			if os.Getenv("NPVERIF_DUMP_EXITS") != "" {
 				fmt.Printf("\t%q: \"%s\",\n", c, cond)
 			}
@@ -110,6 +124,28 @@ func NoDropExits(p *core.Program, r *core.Report, rule string) {
 		}
 		w.WalkBody(fd.Decl.Body, nil)
 	}
+}
+
+// skipCondOf: the normalised condition of the if statement whose branch ends with this continue ("" when the continue is not
+// the last statement of an if branch).
+func skipCondOf(info *types.Info, body *ast.BlockStmt, b *ast.BranchStmt) string {
+	out := ""
+	ast.Inspect(body, func(n ast.Node) bool {
+		ifs, ok := n.(*ast.IfStmt)
+		if !ok {
+			return true
+		}
+		if l := ifs.Body.List; len(l) > 0 && l[len(l)-1] == ast.Stmt(b) {
+			out = core.NormCond(info, ifs.Cond)
+		}
+		if els, ok := ifs.Else.(*ast.BlockStmt); ok {
+			if l := els.List; len(l) > 0 && l[len(l)-1] == ast.Stmt(b) {
+				out = core.NegCond(core.NormCond(info, ifs.Cond))
+			}
+		}
+		return true
+	})
+	return out
 }
 
 // condSummary renders the positive/negative atoms known at a point (versions stripped, sorted): a stable description of the guard.
